@@ -745,9 +745,11 @@ def _thorough_kinds(idx, n):
 
 def _thorough_modes(du, u, n, kind):
     # the formula-side duplicates of the long sums on a sub-lattice of sizes
-    if n in (1, 2, 3, 12, 24) or _heavy(du, u, n) < 1000:
+    if n in (1, 2, 3, 12, 24):
         return MAIN_MODES
-    return ["plain", "add", "div", "frm:-", "frm:D", "frm:A+D", "frm:X", "out:-", "out:D"]
+    if _heavy(du, u, n) < 1000:
+        return MAIN_MODES[:8]
+    return ["plain", "add", "div", "frm:-", "frm:D", "frm:A+D", "frm:X"]
 
 
 def _unclaim_edges(cases):
@@ -773,7 +775,7 @@ def generate(rng: random.Random, tier: str):
         dates = [(rng.randint(1950, 2150), rng.randint(1, 12), rng.randint(1, 28)) for _ in range(4)]
         dates.append((rng.choice([2020, 2024, 2000, 2400]), 2, 29))
         out = _matrix(dates, tuple(range(1, 25)), _thorough_kinds, _thorough_modes)
-        out += _text_stream(DATES_QUICK + DATES_MORE + dates, tuple(range(1, 25)), ("i", "f", "g"))
+        out += _text_stream(DATES_QUICK + DATES_MORE + dates, (1, 2, 3, 4, 6, 11, 12, 13, 24), ("i", "f", "g"))
         out += _side_streams(rng, DATES_QUICK + dates, 6000)
     return _unclaim_edges(out)
 
